@@ -167,8 +167,9 @@ func (t *basicTaskBase) startBasicTask() (err error) {
 		_, errStderr = io.Copy(stderr, stderrIn)
 	}()
 
+	// Captured before the goroutine is spawned: Kill sets t.taskCmd to nil and may run first.
+	taskCmd := t.taskCmd
 	go func() {
-		taskCmd := t.taskCmd
 		err = taskCmd.Wait()
 		// ^ when this unblocks, the task is done
 
